@@ -427,10 +427,12 @@ class POP3CommandHandler:
         msg_bytes = msg_as_bytes(msg)
         size = len(msg_bytes)
         msg_bytes = dot_stuff(msg_bytes)
+
+        # NOTE: The rendered message always ends with CRLF so all that is
+        #       missing is the termination line.
+        #
         await self.client.push(
-            f"+OK {size} octets\r\n".encode("latin-1")
-            + msg_bytes
-            + b"\r\n.\r\n"
+            f"+OK {size} octets\r\n".encode("latin-1") + msg_bytes + b".\r\n"
         )
         return True
 
